@@ -6,6 +6,9 @@ use std::panic::{catch_unwind, AssertUnwindSafe};
 
 thread_local! {
     static QUIET: Cell<u32> = Cell::new(0);
+    /// message and location of the first panic seen on this thread since the outermost
+    /// `catch` began (a runtime may re-raise a task's panic under a generic message)
+    static FIRST: std::cell::RefCell<Option<String>> = std::cell::RefCell::new(None);
 }
 
 pub fn install_hook() {
@@ -13,20 +16,43 @@ pub fn install_hook() {
     std::panic::set_hook(Box::new(move |info| {
         if QUIET.with(|q| q.get()) == 0 {
             default(info);
+        } else {
+            FIRST.with(|f| {
+                let mut f = f.borrow_mut();
+                if f.is_none() {
+                    let msg = info
+                        .payload()
+                        .downcast_ref::<String>()
+                        .cloned()
+                        .or_else(|| info.payload().downcast_ref::<&str>().map(|s| s.to_string()))
+                        .unwrap_or_default();
+                    let loc = info.location().map(|l| format!("{}:{}", l.file(), l.line())).unwrap_or_default();
+                    *f = Some(format!("{msg} at {loc}"));
+                }
+            });
         }
     }));
 }
 
 /// Runs `f`, turning a panic into `Err(message)`.
 pub fn catch<R>(f: impl FnOnce() -> R) -> Result<R, String> {
+    let outermost = QUIET.with(|q| q.get()) == 0;
+    if outermost {
+        FIRST.with(|f| *f.borrow_mut() = None);
+    }
     QUIET.with(|q| q.set(q.get() + 1));
     let res = catch_unwind(AssertUnwindSafe(f));
     QUIET.with(|q| q.set(q.get() - 1));
     res.map_err(|p| {
-        p.downcast_ref::<String>()
+        let msg = p
+            .downcast_ref::<String>()
             .cloned()
             .or_else(|| p.downcast_ref::<&str>().map(|s| s.to_string()))
-            .unwrap_or_else(|| "panic (non-string payload)".to_string())
+            .unwrap_or_else(|| "panic (non-string payload)".to_string());
+        match FIRST.with(|f| f.borrow().clone()) {
+            Some(first) if !first.starts_with(&msg) => format!("{msg} [first panic: {first}]"),
+            _ => msg,
+        }
     })
 }
 
